@@ -63,6 +63,12 @@ class Ctx(object):
         self.violations.append({'signature': signature, 'message': message, 'replay': replay,
                                 'count': 1})
 
+    def new_violations(self):
+        """Violations that are not recorded known findings of this property."""
+        known = {k.get('signature') for k in load_known()
+                 if k.get('property') == self.pid and k.get('status') == 'known'}
+        return [v for v in self.violations if v['signature'] not in known]
+
     def cap(self, what):
         if what not in self.caps:
             self.caps.append(what)
